@@ -220,6 +220,17 @@ Theorem C24_oracle_holds_on_model :
 Proof. exact step_oracle_model. Qed.
 Print Assumptions C24_oracle_holds_on_model.
 
+(** Verification units (StartVerification / Unit.Verify): a unit is reported as
+    verified only if every entry verified — in the model the unit's verdict IS the
+    completed VerifySegment verdict, and then the oracle (reported verified =>
+    [spec_segment]) holds. *)
+Theorem C24_unit_oracle_holds_on_model :
+  forall pki trcs tbl seg frompb,
+    let v := verify_segment_c pki trcs tbl seg in
+    unit_oracle pki trcs (mkstep seg frompb tbl v) v = true.
+Proof. exact unit_oracle_model. Qed.
+Print Assumptions C24_unit_oracle_holds_on_model.
+
 (** ------------------------------------------------------------------
     Non-vacuity. *)
 
